@@ -45,12 +45,14 @@ mut() { # name, sed expression
 
 cp "$COQ/C04/Model.v" "$W/mut/C04m/Model.v"
 echo "control      identical copy of the model: $(evalcases) of $total cases disagree (must be 0)"
-mut "SASL <success/> flush checked (wr instead of wru)" 's/wru WSuccess ;;;/wr WSuccess ;;;/'
+mut "SASL <success/> flush unchecked (wru instead of wr: the code before its repair)" 's/  wr WSuccess ;;;/  wru WSuccess ;;;/'
+mut "no ctx test after the negotiator call (the code before its repair)" '/^Fixpoint session/,/^  end\./ s/      ctx ;;;.*$/      Ret tt ;;;/'
+mut "Ready not cleared on an error return (the code before its repair)" 's/(N.ldiff (w_bits w) st_Ready)/(w_bits w)/'
+mut "bind: stanza error of the callback answered and the session reported ready (before its repair)" 's/| VBind e => match e with BOk => false | _ => true end/| VBind e => match e with BErr => true | _ => false end/'
 mut "ctx_done off by one (<=?)" 's/Some c => c <? w_ops w/Some c => c <=? w_ops w/'
 mut "Expect without its ctx test" '/^Fixpoint expect/,/^  end\./ s/      ctx ;;;/      Ret tt ;;;/'
 mut "Ready granted although the list has a required feature" 's/| RSNone => if fl_req l then o else/| RSNone => if false then o else/'
 mut "restart keeps the tokens buffered by the old decoder" 's/| RSSame => mkW (w_ops w) (drop_to_brk (w_script w))/| RSSame => mkW (w_ops w) (w_script w)/'
-mut "TLS write error not permanent" 's/(w_wdead w || (w_tlslayer w \&\& negb ok))/(w_wdead w)/'
 mut "List error without the deferred partial flush" 's/if f_lerr f then wru WPartial ;;; Fail/if f_lerr f then Fail/'
 mut "mask of a feature applied only by the session loop (not in negotiateFeatures)" 's/  or_bits (fst o) ;;;\n  Ret o\./XX/; /^Definition run_feature/,/^  Ret o\./ s/  or_bits (fst o) ;;;/  Ret tt ;;;/'
 mut "voluntary feature ends the selection loop" 's/| RSNone => if req then Ret (after_loop l o) else init_loop/| RSNone => if true then Ret (after_loop l o) else init_loop/'
